@@ -97,15 +97,16 @@ def enum_check(enum, maxlen, tier_letter, dev, timeout, workers):
 
 
 TIERS = {
-    # enums: (Enum, MaxLen, keep) - keep = None: every enumerated string goes to the real contract,
-    #        keep = k: a seeded sample of k strings (plus every predicted disagreement)
+    # enums: (Enum, MaxLen, full, keep) - every enumerated string of at most `full` bytes goes to the real
+    #        contract (None: all of them), plus a seeded sample of `keep` of the longer ones, plus every
+    #        predicted disagreement
     "quick": dict(letter="Q", mc=("NNSSyntaxMC.tla", "NNSSyntax_quick.cfg"), mc_timeout=600,
-                  enums=[("namechars", 4, 6000), ("addrchars", 4, 3000), ("labels", 3, None), ("octets", 5, None),
-                         ("hexgroups", 9, 8000)],
+                  enums=[("namechars", 4, 3, 5000), ("addrchars", 4, 3, 2000), ("labels", 3, None, 0), ("octets", 5, None, 0),
+                         ("hexgroups", 9, 0, 8000)],
                   sim=(40, 31), sim_keep=40, nrand=12, shards=6, batch=1500, drive_timeout=900),
     "thorough": dict(letter="T", mc=("NNSSyntaxMC.tla", "NNSSyntax_thorough.cfg"), mc_timeout=3000,
-                     enums=[("namechars", 6, None), ("addrchars", 6, 300000), ("labels", 4, None), ("octets", 5, None),
-                            ("hexgroups", 9, 400000)],
+                     enums=[("namechars", 6, 5, 250000), ("addrchars", 6, 5, 150000), ("labels", 4, None, 0), ("octets", 5, None, 0),
+                            ("hexgroups", 9, 0, 400000)],
                      sim=(1500, 31), sim_keep=1500, nrand=400, shards=14, batch=4000, drive_timeout=3000),
 }
 
@@ -139,9 +140,9 @@ def scenario_of_factory(trace_all):
 
     def scenario_of(tid):
         tid = str(tid)
-        rs = by[tid]
+        rs = [r for r in by[tid] if r.get("src") != "setup"]     # the setup steps are re-executed by the driver itself
         rst = resets.get(tid.split(".")[0], {})
-        return dict(n=rst.get("n", 1), mode=rs[0]["mode"] if rs else "tx", src=rst.get("src", "replay"),
+        return dict(n=rst.get("n", 1), mode=rst.get("mode", "tx"), src=rst.get("src", "replay"),
                     steps=[{k: r[k] for k in STEP_KEYS} for r in rs])
     return scenario_of, by, resets
 
@@ -175,14 +176,15 @@ def run(pid, tier, seed, replay=None):
         # ---- S1 (b) + S2: enumerations
         rnd = random.Random(seed)
         items = []
-        for enum, maxlen, keep in cfg["enums"]:
+        for enum, maxlen, full, keep in cfg["enums"]:
             mc, strs, preds = enum_check(enum, maxlen, cfg["letter"], dev, cfg["mc_timeout"], workers)
             V.log("S1 enum %s<=%d: %d strings, scanners = reference grammars except %d tagged predictions, %.0fs" %
                   (enum, maxlen, mc["states"], len(preds), mc["wall_s"]))
             mcs.append(mc)
             strs.sort()
-            if keep is not None and len(strs) > keep:
-                strs = rnd.sample(strs, keep)
+            if full is not None:
+                longer = [x for x in strs if len(x[1]) > full]
+                strs = [x for x in strs if len(x[1]) <= full] + (rnd.sample(longer, keep) if len(longer) > keep else longer)
             items += [dict(k=k, s=s) for k, s in strs]
             preds_all += preds
             n_enum += len(strs)
